@@ -765,7 +765,8 @@ const c09Rule = "four generated families over the 8 (suite, signature group) com
 	"(TBLS) 2<=t<=n<=8: honest partials verify and carry their index; the list given to Recover is a random subset in random order interleaved with invalid partials {garbage, short, other message, foreign value under a valid index, out-of-range index, bit flip} and duplicates; with >= t distinct valid partials Recover must return exactly bls.Sign(secret, msg), verifying under the group key; otherwise an error; VerifyPartial rejects every invalid kind. " +
 	"(BDN) 1..10 keys, arbitrary participation mask built by one of {NewMask+SetBit, SetMask, Merge twice, Clone+SetMask, NewMask(own key)+SetBit}: aggregate signature and key equal the reference sums (c_i+1)*sigma_i / (c_i+1)*X_i with c from the blake2s-XOF specification, verify together, fail under any mask with one bit flipped and for another message; wrong signature counts are errors. " +
 	"(CoSi) Ed25519/P-256/Edwards-vartime, 1..10 signers with random participation; a mask state machine (SetBit/SetMask) is compared with a bit-set model of AggregatePublic; the collective signature verifies iff the Complete/Threshold policy holds; mask bit, response+delta, commitment+B, message, truncation, extension, bit flips are rejected unless equivalent (mask padding bits, same decoded values). " +
-	"non-trivial = a negative mutation, a non-prefix or polluted partial list, a non-full mask or non-default construction route; distinct = distinct rendered case"
+	"non-trivial = a negative mutation, a non-prefix or polluted partial list, a non-full mask or non-default construction route; distinct = distinct rendered case" +
+	" Added after the sensitivity rounds: every aggregation / recovery is repeated on the same objects and must agree (CoSi prefix rehearsal, tbls Recover twice, BDN aggregate twice)."
 
 func TestC09_BLS(t *testing.T) {
 	ev := evFor("C09")
